@@ -12,6 +12,9 @@ ID = "C07"
 READY = True
 LEAN_TARGETS = ["NauyacaVerif.Props.C07"]
 THEOREMS = ['NauyacaVerif.C07.seg_indep', 'NauyacaVerif.C07.seg_indep_observables', 'NauyacaVerif.C07.seg_indep_then', 'NauyacaVerif.C07.at_most_once', 'NauyacaVerif.C07.trailing_ignored_gemini', 'NauyacaVerif.C07.pump_at_most_once', 'NauyacaVerif.C07.pump_rechunk', 'NauyacaVerif.C07.pump_seg_indep', 'NauyacaVerif.C07.pump_read_merge', 'NauyacaVerif.C07.maxRequest_tie', 'NauyacaVerif.C07.sys_seg_indep', 'NauyacaVerif.C07.sys_late_read_noop']
+LEAN_TARGETS = LEAN_TARGETS + ["NauyacaVerif.Props.Tr.DataReceived"]
+TRANSLATED = ["dataReceived"]
+THEOREMS = THEOREMS + [f"NauyacaVerif.Translated.{t}" for t in ("data_received_refines", "data_received_rel", "reads_refine", "reads_refine_init", "tr_seg_indep")]
 EXTRACT = ["maxRequest"]
 LEVEL_TEXT = 'Proved for every configuration, state, non-empty list of reads and every continuation: feeding reads one by one is equivalent to feeding their concatenation (output, invocation counts, uploaded content, phase), bytes after a dispatched request are ignored, at most one handler/upload invocation per connection (also behind the pump, whose 8192-byte re-chunking is absorbed). Correspondence: all 2^(n-1) segmentations of short requests, one/two/multi-cut and byte-by-byte for long ones, late reads while a task is pending, and the TLS ciphertext of the same session cut at arbitrary offsets through the real PyOpenSSL pump., and pump_seg_indep: the grouping of TLS items into TCP reads, including application data coalesced with the end of the handshake, is unobservable. The record reassembly of OpenSSL (ciphertext bytes -> items) is trusted and exercised by cutting real ciphertext at arbitrary offsets.'
 LEVEL_NOTE = "Trusted: Lean kernel (axioms propext, Classical.choice, Quot.sound only); the hand-written model Srv.step/Srv.pumpStep is tied to /repo by extraction (constants, 'every transport.write sits in _send_response') and by the correspondence run of every check (fake transport with asyncio's write-after-close semantics, virtual-clock loop, scripted handlers; real PyOpenSSL pump over memory BIOs); asyncio's transport/timer contract, OpenSSL's record layer and Python exception texts are assumed, see assumptions."
